@@ -48,7 +48,7 @@ type SeqCheck struct {
 	// the concurrent half of the property: process-layer scenarios (optional)
 	Proc *ProcCheck
 	// extra drivers contributing observations
-	Extra func(e *Env) ([]*Obs, error)
+	Extra func(e *Env, cov map[string]any) ([]*Obs, error)
 }
 
 func (c *SeqCheck) Run(e *Env) (*Outcome, *Evidence, error) {
@@ -237,7 +237,7 @@ func (c *SeqCheck) Run(e *Env) (*Outcome, *Evidence, error) {
 		cov["concurrent"] = pc
 	}
 	if c.Extra != nil {
-		o, err := c.Extra(e)
+		o, err := c.Extra(e, cov)
 		if err != nil {
 			return nil, nil, err
 		}
